@@ -76,7 +76,8 @@ C_NOTE = ("Trusted: the hand-written Coq models of the rewriter (Rewrite.v) and 
           "(a) the structural correspondence (abstract tree of the real rewriter's unoptimised output = Rewrite.rewrite, on every generated program) and "
           "(b) the behavioural correspondence (Sem.v source semantics = run of the reference rendering on refco; Sem.v target semantics of the model's output = "
           "run of the really compiled program on the real seq runtime); the program generator and its two renderings, refco, the event runtime tr, the VerifCompile hook. "
-          "The big-step reading of the seq combinators in Sem.v is validated against the real runtime by (b), not proved equal to the machine of Props_C08.v.")
+          "The big-step reading of the seq combinators in Sem.v is proved to be an execution of the reference interpreter of the runtime layer (Link.v) and hence of the machine model "
+          "of seq.go (LinkMachine.v with Protocol.v / Props_C08.v): C01_end_to_end_machine_partial; it is also validated against the real runtime by (b).")
 CHECKS["C01"] = dict(
     category="proof",
     technique="Coq proof (partial): forward simulation of the rewriter model (pass0, pass2, pass3) from the source coroutine semantics to the strict target semantics, "
@@ -84,8 +85,9 @@ CHECKS["C01"] = dict(
               "structural + behavioural correspondence model vs real compiler on every run; differential translation validation of compiled vs reference rendering",
     text="C01_compiled_equals_source_partial (Props_C01.v): for every body satisfying the computable side conditions c01_hyps (inside the proved fragment, nesting "
          "depth below the model's termination-checker fuel, model output legal Go in the sense of Strict.v) the model's output, run as Start(Delay(...)), has the outcome of the "
-         "source coroutine (values, worlds at delivery, stop point, final world, panic). The side conditions are evaluated on every generated program (evidence: "
-         "theorem_side_conditions). Outside the fragment (yielding init/post, break out of a yielding case = finding F2, range, YieldFrom) the check is differential. Known findings F1/F2 are reported as such.",
+         "source coroutine (values, worlds at delivery, stop point, final world, panic). C01_end_to_end_machine_partial: when moreover the model output contains no native Yield (lk, computable), "
+         "the same outcome is produced by the consumer loop MoveNext/Current written with the generator object of the MACHINE model of seq.go (SeqMachine.v: co cells, continuations, For trampoline), for all large enough fuels. "
+         "The side conditions of both theorems are evaluated on every generated program (evidence: theorem_side_conditions). Outside the fragment (yielding init/post, break out of a yielding case = finding F2, range, YieldFrom) the check is differential. Known findings F1/F2 are reported as such.",
     note=C_NOTE, design="§6 C01, §11")
 CHECKS["C04"] = dict(
     category="proof",
